@@ -2,7 +2,7 @@
 # tools/try_seed.sh <seed-dir> <prop|all>  -- apply <seed-dir>/patch.diff to a scratch worktree and run the check(s) there
 set -u
 SEED=$1; PROP=${2:-all}
-WT=/tmp/wt_try
+WT=${WT:-/tmp/wt_try}
 cd /verif
 [ -d $WT ] || git -C /repo worktree add -q --detach $WT HEAD
 git -C $WT checkout -q --detach "$(git -C /repo rev-parse HEAD)" 2>/dev/null
